@@ -26,9 +26,30 @@ Theorem C13_write_all :
       (ok = false -> exists rest, buf = taken ++ rest /\ rest <> []).
 Proof. exact write_all_spec. Qed.
 
+(* The reusable single-object writer (GenericSingleObjectWriter::write_value_ref), for EVERY history
+   of calls on one writer - values that encode and values that do not - against EVERY sink script:
+   after each call the writer's buffer is the header again; a call that returns Ok(n) delivered
+   exactly header ++ payload of THAT call and n is its length; a call that returns an error delivered
+   nothing (the value did not encode) or a strict prefix of its own message; the sink holds the
+   deliveries in call order.  Nothing of a failed message travels with a later one. *)
+Theorem C13_single_object_writer_reuse :
+  forall (ops : list (option bytes)) (h : bytes) (s : sink),
+    so_guard h = true ->
+    let '(outs, h', s') := sow_run h s ops in
+    h' = h /\ sk_data s' = sk_data s ++ concat (map snd outs) /\ Forall2 (so_call_ok h) ops outs.
+Proof. exact sow_run_spec. Qed.
+
 (* non-vacuity: 1-byte writes, an Interrupted, then a failure in the second piece *)
 Example C13_example :
   let s := mkSink [Accept 1; Interrupted; Accept 1; Accept 2; Fail] 100 [] 0 in
   write_pieces s [[1; 2; 3]; [4; 5]] =
     (false, mkSink [] 100 [1; 2; 3] 5).
 Proof. vm_compute. reflexivity. Qed.
+
+(* a failed sink call in the first message, an unencodable value, then two good messages *)
+Example C13_reuse_example :
+  let h := [195; 1; 1; 2; 3; 4; 5; 6; 7; 8] in
+  so_guard h = true /\ sow_run h (mkSink [Accept 4; Fail; Accept 3] 100 [] 0) [Some [2]; None; Some [4]; Some [6; 7]] =
+    ([(None, [195; 1; 1; 2]); (None, []); (Some 11%nat, h ++ [4]); (Some 12%nat, h ++ [6; 7])],
+     h, mkSink [] 100 ([195; 1; 1; 2] ++ (h ++ [4]) ++ (h ++ [6; 7])) 5).
+Proof. split; vm_compute; reflexivity. Qed.
